@@ -140,6 +140,18 @@ def shard(col, shard_i, ngrammars, ninputs):
         for t in texts:
             cases.append(R.Case(g, t, None, E.Settings(), spec))
             cases.append(R.Case(g, t, None, E.Settings(memoization=False), spec))
+    # skip-to over a rule reference: the scan and the final parse must both run the rule's action
+    for gi in range(max(2, ngrammars // 3)):
+        tgt_tok = rng.choice(['a', 'b', 'x'])
+        item = rng.choice([('tok', tgt_tok), ('choice', [('tok', tgt_tok), ('pat', r'\d+')]), ('seq', [('tok', tgt_tok), ('opt', ('tok', '!'))])])
+        deco = ['nomemo'] if rng.random() < 0.3 else []
+        g = {'rules': [('start', [], ('seq', [('opt', ('tok', '=')), ('skipto', ('call', 'item')), ('rep', False, None, False, ('call', 'item')), 'eof'])),
+                       ('item', deco, item)], 'directives': {}, 'keywords': []}
+        col.count('family.skipto-rule')
+        meth = rng.choice([{'item': 'tag'}, {'item': ('failif', tgt_tok)}, {'item': ('const', 'K')}, {'item': 'identity'}, {}])
+        spec = (rng.choice(['none', 'identity']) if meth else 'identity', meth)
+        for t in [f'z z {tgt_tok}', f'= q {tgt_tok} {tgt_tok}', f'{tgt_tok}', f'9 {tgt_tok} 7', 'z z', f'zz{tgt_tok} {tgt_tok}!', f'= {tgt_tok}! {tgt_tok}']:
+            cases.append(R.Case(g, t, None, E.Settings(), spec, tag='skipto'))
     # left-recursive rules whose action accepts the early growth rounds and rejects (or raises in) a later one: the shorter
     # match must be kept and handed to the caller
     for gi in range(max(2, ngrammars // 2)):
